@@ -32,6 +32,7 @@ PATTERNS = {
     "x+y?": (False, "(RSeq (RPlus (RChar 120)) (ROpt (RChar 121)))", False),
     "^[A-Z][a-z]*$": (True, "(RSeq %s (RStar %s))" % (_cls("A", "Z"), _cls("a", "z")), True),
     "^[0-9]+%$": (True, "(RSeq (RPlus %s) (RChar 37))" % _cls("0", "9"), True),
+    "^.*$": (True, "(RStar RAny)", True),
 }
 # for each pattern: strings that match / do not match, by length
 PAT_SAMPLES = {
@@ -44,13 +45,14 @@ PAT_SAMPLES = {
     "x+y?": (["x", "xy", "axb", "xxxy", "--x--", "aaaxxy", "abcdefx"], ["y", "ay", "abc", "abcd", "yyyyy", "abcdef", "abcdefg"]),
     "^[A-Z][a-z]*$": (["A", "Ab", "Abc", "Abcd", "Abcde", "Abcdef", "Abcdefg"], ["a", "aB", "ABc", "Abc1", "Ab de", "abcdef", "AbcdefG"]),
     "^[0-9]+%$": (["5%", "50%", "100%", "1234%", "12345%", "123456%"], ["%", "5", "5%%", "a5%", "50 %", "%%%%%%", "1234567"]),
+    "^.*$": (["", "a", "ab", "a c", "ab\tc", "abcde", "abcdef", "abcdefg"], ["\n", "a\n", "a\nb", "\nabc", "ab\ncd", "abcde\n", "abc\ndef"]),
 }
 
 FMT = {"date-time": "FDateTime", "date": "FDate", "time": "FTime", "ipv4": "FIP", "ipv6": "FIP"}
 FMT_GOOD = {"date-time": ["2024-01-02T03:04:05Z", "1999-12-31T23:59:59Z", "0001-01-01T00:00:00Z", "9999-12-31T23:59:59Z"], "date": ["2024-01-02", "1999-12-31", "0001-01-01", "9999-12-31"],
             "time": ["03:04:05", "23:59:59", "00:00:00"], "ipv4": ["192.168.0.1", "10.0.0.255"], "ipv6": ["::1", "2001:db8::1"]}
-FMT_BAD = {"date-time": ["2024-01-02", "yesterday"], "date": ["2024-13-45", "02/01/2024"], "time": ["25:00:00", "noon"],
-           "ipv4": ["300.1.1.1", "host"], "ipv6": ["::g", "host"]}
+FMT_BAD = {"date-time": ["2024-01-02", "yesterday", ""], "date": ["2024-13-45", "02/01/2024", ""], "time": ["25:00:00", "noon", "", "Z"],
+           "ipv4": ["300.1.1.1", "host", ""], "ipv6": ["::g", "host", ""]}
 FMT_ZERO = {'"0001-01-01T00:00:00Z"', '""', '"0001-01-01"', '"00:00:00"'}
 
 STY = {"string": "SString", "integer": "SInteger", "number": "SNumber", "boolean": "SBoolean", "null": "SNull", "object": "SObject",
@@ -325,7 +327,7 @@ class Docs:
         if len(x) < mn or (mx and len(x) > mx):
             return False
         p = s.get("pattern")
-        if p is not None and not re.search(p, x):
+        if p is not None and not re.search(p.replace("$", "\\Z"), x):
             return False
         return True
 
